@@ -21,9 +21,9 @@ func init() {
 
 // the path under which knut knows file f, relative to the temporary directory: the root is
 // given as dir/f0.knut, included files as path.Join(dir of the including file, include path),
-// which is cleaned: dir/<l.dir[f]>/f<f>.knut
+// which is cleaned: dir/<l.dir[f]>/<l.names[f]>
 func layoutPath(l layout, f int) string {
-	name := fmt.Sprintf("f%d.knut", f)
+	name := l.names[f]
 	if l.dir[f] == "." {
 		return name
 	}
